@@ -38,6 +38,7 @@ Inductive site :=
 | S_pe_own_slice             (* x86_64/pe.rs, pe.rs    [..bytes], &data[offset..]  *)
 | S_pe_own_expect            (* x86_64/pe.rs           expect("invalid fp register offset") *)
 | S_pe_dep                   (* pe-unwind-info         resolve_operation arithmetic *)
+| S_create_sub               (* unwinder.rs            section range - base_svma (module creation, stubs ranges) *)
 | S_macho_stub_sub           (* unwinder.rs            stubs_range.start - base_svma *)
 | S_macho_fn_sub             (* macho.rs               rel - function.start_address *)
 | S_macho_split              (* instruction analysis   split_at(pc_offset)         *)
